@@ -24,6 +24,14 @@ each under the 4 combinations of yaql.convertTuplesToLists x yaql.convertSetsToL
     then cleared and filled with the opposite flags: every engine keeps finalising by the options it was
     created with.
 
+(6) rebinding: identity-like expressions that rebind `$` per element / per entry or carry the document through a
+    variable or a one-element container (`$.select($)`, `$.where(true)`, `$.toList().select($)`, `$.select([$]).selectMany($)`,
+    `let(x => $) -> $x`, `[$].select($)`, `$.values().select($)`, `$.items().toDict($[0], $[1])` ...) over every
+    small document (null at every position: as the document, as element, as dict value), evaluated in a fresh
+    context AND in a child / grandchild of a host context that already holds a different, non-null `$`
+    (yaql.create_context(data=<default document>), parent['$'] = ...): the document (its elements, its values)
+    must come back, whatever an enclosing context holds.
+
 Where the image needs an unhashable dict key or set member (a composite value
 converted to list/dict/set in such a place) the model cannot name a value; the
 implementation raising TypeError there is reported as
@@ -52,8 +60,12 @@ ASSUMPTIONS = ['JSON-like documents have string keys; composite keys are produce
 BOUNDS = {
     'quick': 'documents: depth <= 3, width <= 2, at most 5 nodes (22 781), those of <= 3 nodes also through '
              'YaqlInterface; producers: all kind-correct compositions of <= 3 producers over 4 atoms (12 586); '
-             'x 4 option combinations; 66 stub calls x 4; 50 expressions x 4 engines from one mutated options dict x 3 phases',
-    'thorough': 'documents: depth <= 3, width <= 2, all of them (at most 7 nodes, 142 515); producers as in quick; x 4',
+             'x 4 option combinations; rebinding: 17 identity-like expressions (those applicable to the root kind) x documents of '
+             '<= 3 nodes (815) x (4 context arrangements (fresh, child of create_context(data=D), child and grandchild of '
+             'a context with $ = D) under the default options + fresh and prepared context under the 3 other combinations); 66 stub calls x 4; 50 expressions x 4 engines from one mutated options dict x 3 phases',
+    'thorough': 'documents: depth <= 3, width <= 2, all of them (at most 7 nodes, 142 515); producers as in quick; x 4; '
+                'rebinding: documents of <= 4 nodes (4 615) x applicable expressions x 4 context arrangements x 4, documents of '
+                '5 nodes (18 166) under the default options in the fresh and the prepared context',
 }
 JOB_LIMIT = {'quick': 600, 'thorough': 3600}
 
@@ -493,12 +505,124 @@ def job_captured_options():
     return res
 
 
+# ---------------------------------------------------------------------------
+# (6) identity-like expressions that rebind `$`; contexts whose ancestors already hold a `$`
+# ---------------------------------------------------------------------------
+SEQ = ('list', 'tuple', 'gen', 'set', 'frozenset')
+REBINDERS = [
+    # name, root kinds of the documents it applies to (None: all), text, what comes back (models.plain.rebound)
+    ('$', None, '$', 'same'),
+    ('let', None, 'let(x => $) -> $x', 'same'),
+    ('[$].select', None, '[$].select($)', 'single'),
+    ('[$].select.first', None, '[$].select($).first()', 'same'),
+    ('{k=>$}.values', None, '{k => $}.values().select($)', 'single'),
+    ('select', SEQ, '$.select($)', 'elements'),
+    ('where', SEQ, '$.where(true)', 'elements'),
+    ('toList.select', SEQ, '$.toList().select($)', 'elements'),
+    ('select.select', SEQ, '$.select($).select($)', 'elements'),
+    ('select-let', SEQ, '$.select(let(x => $) -> $x)', 'elements'),
+    ('wrap.selectMany', SEQ, '$.select([$]).selectMany($)', 'elements'),
+    ('enumerate', SEQ, '$.enumerate().select($[1])', 'elements'),
+    ('values', ('dict',), '$.values().select($)', 'values'),
+    ('items-value', ('dict',), '$.items().select($[1])', 'values'),
+    ('keys', ('dict',), '$.keys().select($)', 'keys'),
+    ('items.toDict', ('dict',), '$.items().toDict($[0], $[1])', 'same'),
+    ('keys.toDict', ('dict',), 'let(d => $) -> $d.keys().toDict($, $d.get($))', 'same'),
+]
+# the document an enclosing host context holds: not null and different from every enumerated document
+OUTER = {'D1': {'default': 'document'}, 'D2': [7]}
+ARRANGEMENTS = ['fresh', 'prepared', 'parent', 'grandparent']
+REBIND_FULL = {'quick': 0, 'thorough': 4}        # documents of <= that many nodes: every arrangement x every combination
+REBIND_MOST = {'quick': 3, 'thorough': 4}        # up to here: every arrangement under the default options, fresh + prepared x 4
+REBIND_DEFAULTS = {'quick': 3, 'thorough': 5}    # larger ones up to here: default options, fresh + prepared
+_bases = {}
+
+
+def base_context(arrangement):
+    """The context whose child the statement is evaluated in (never written to: Statement.evaluate binds the
+    document in the child).  fresh: the standard context; prepared: a host's own yaql.create_context(data=D1);
+    parent / grandparent: a context with $ = D set as a variable, directly above / two levels above."""
+    import yaql
+    if arrangement not in _bases:
+        if arrangement == 'fresh':
+            ctx = yq.root()
+        elif arrangement == 'prepared':
+            ctx = yaql.create_context(data=OUTER['D1'])
+        else:
+            ctx = yq.root().create_child_context()
+            ctx['$'] = yutils.convert_input_data(OUTER['D2' if arrangement == 'parent' else 'D1'])
+            if arrangement == 'grandparent':
+                ctx = ctx.create_child_context()
+        _bases[arrangement] = ctx
+    return _bases[arrangement]
+
+
+def run_rebind(desc, text, arrangement, t2l, s2l):
+    try:
+        return ('v', yq.evaluate(text, data=P.build(desc), options=options(t2l, s2l), context=base_context(arrangement)))
+    except Exception as e:
+        return ('e', type(e).__name__, str(e)[:160])
+
+
+def judge_rebind(desc, rebinder, arrangement, t2l, s2l):
+    name, _kinds, text, how = rebinder
+    bad = []
+    img = P.image(P.rebound(P.build(desc, twin=True), how), t2l, s2l, bad)
+    obs = run_rebind(desc, text, arrangement, t2l, s2l)
+    verdict = judge(img, bad, obs, t2l, s2l, '%s on %s in a %s context with tuples->lists=%s sets->lists=%s'
+                    % (text, P.spell(desc), arrangement, t2l, s2l))
+    if verdict and not verdict[0].startswith('finalize-unhashable'):
+        # one key per (expression, kind of context): what came back instead is in the detail
+        verdict = ('%s path=rebind expr=%s context=%s' % ('wrong-image' if verdict[0].startswith('wrong-image') else verdict[0],
+                                                          name, 'fresh' if arrangement == 'fresh' else 'ancestor-$'), verdict[1])
+    return img, bad, obs, verdict
+
+
+def rebind_plan(tier, desc):
+    n = P.nodes(desc)
+    if n <= REBIND_FULL[tier]:
+        return [(a, c) for a in ARRANGEMENTS for c in COMBOS]
+    if n <= REBIND_MOST[tier]:
+        return [(a, COMBOS[0]) for a in ARRANGEMENTS] + [(a, c) for a in ARRANGEMENTS[:2] for c in COMBOS[1:]]
+    return [(a, COMBOS[0]) for a in ARRANGEMENTS[:2]]
+
+
+def job_rebind(tier, k, nchunks):
+    res = Result()
+    for desc in P.documents(3, 2, REBIND_DEFAULTS[tier])[k::nchunks]:
+        doc = P.spell(desc)
+        for rebinder in REBINDERS:
+            if rebinder[1] is not None and desc[0] not in rebinder[1]:
+                continue
+            for arrangement, (t2l, s2l) in rebind_plan(tier, desc):
+                case = {'kind': 'rebind', 'doc': doc, 'expr': rebinder[0], 'context': arrangement, 't2l': t2l, 's2l': s2l}
+                core.CURRENT_CASE[0] = case
+                res.case(('rebind', doc, rebinder[0], arrangement, t2l, s2l))
+                img, bad, obs, verdict = judge_rebind(desc, rebinder, arrangement, t2l, s2l)
+                res.evaluations += 1
+                res.transitions += 1
+                res.nontrivial += 1
+                res.outcomes['rebind %s %s %s%s' % (rebinder[0], 'fresh' if arrangement == 'fresh' else 'ancestor-$',
+                                                    'value' if obs[0] == 'v' else obs[1],
+                                                    ' (image needs an unhashable member)' if bad else '')] += 1
+                if verdict:
+                    res.fail(verdict[0], case, verdict[1],
+                             size=len(doc) + len(rebinder[2]) + (0 if (t2l, s2l) == COMBOS[0] else 1000)
+                             + (2000 if verdict[0].startswith('finalize-unhashable') else 0))
+    if k == 0:
+        d = ('list', (('leaf', 0), ('leaf', 4), ('leaf', 2)))
+        res.sample({'document': P.spell(d), 'expression': '$.select($)', 'context': 'prepared', 'options': 'defaults',
+                    'observed': repr(run_rebind(d, '$.select($)', 'prepared', True, False))})
+    return res
+
+
 def jobs(tier, seed):
     nd = 16 if tier == 'quick' else 48
     npj = 16 if tier == 'quick' else 48
     return ([('docs-%02d' % k, 'job_documents', (tier, k, nd)) for k in range(nd)]
             + [('expr-%02d' % k, 'job_producers', (tier, k, npj)) for k in range(npj)]
             + [('seq-%02d' % k, 'job_context_sequence', (k, 8)) for k in range(8)]
+            + [('rebind-%02d' % k, 'job_rebind', (tier, k, nd)) for k in range(nd)]
             + [('stub', 'job_stub', ()), ('captured-options', 'job_captured_options', ())])
 
 
@@ -532,6 +656,13 @@ def replay(case):
         r = job_captured_options()
         hit = [f.detail for k, f in r.failures.items() if k.startswith('engine-follows')]
         return {'observed': hit, 'expected': 'every engine finalises by the options it was created with', 'ok': not hit}
+    if case['kind'] == 'rebind':
+        desc = _parse_desc(case['doc'])
+        rebinder = [r for r in REBINDERS if r[0] == case['expr']][0]
+        img, bad, obs, verdict = judge_rebind(desc, rebinder, case['context'], t2l, s2l)
+        return {'observed': obs if obs[0] == 'e' else repr(obs[1]),
+                'expected': P.show(img) + (' -- needs unhashable: %r' % sorted(set(bad)) if bad else ''),
+                'ok': verdict is None, 'key': verdict[0] if verdict else None}
     if case['kind'] == 'doc':
         desc = _parse_desc(case['doc'])
         img, bad = expect_document(desc, t2l, s2l)
